@@ -166,6 +166,9 @@ def generate(seed):
     sheets = []
     dnames = []
     all_tables = []
+    apos = rng.random() < 0.25
+    if apos:
+        features.add('apostrophe-quoted-attributes')
     pretty = rng.random() < 0.33
     if pretty:
         features.add('indented-sheet-xml')
@@ -281,7 +284,10 @@ def generate(seed):
                         if odc == 0 and dr == 0:
                             ftag = '<f t="shared" ref="%s:%s" si="%d">%s</f>' % (col(c0) + str(r0), col(c0 + w - 1) + str(r0 + h - 1), b, escape(text))
                         else:
-                            ftag = '<f t="shared" si="%d"/>' % b
+                            # a member without text is an empty element: self-closing or start + end tag
+                            ftag = '<f t="shared" si="%d"/>' % b if rng.random() < 0.6 else '<f t="shared" si="%d"></f>' % b
+                            if ftag.endswith('</f>'):
+                                features.add('shared-formula-member-with-end-tag')
                             if any(isinstance(mid, Ref) and (mid.lc or mid.lr) for (_, mid, _) in f[0]):
                                 features.add('shared-formula-abs')
                             if any(isinstance(mid, Ref) and (mid.c < c0 or mid.r < r0) for (_, mid, _) in f[0]):
@@ -345,6 +351,14 @@ def generate(seed):
         ws = ('<?xml version="1.0" encoding="UTF-8" standalone="yes"?>\n<worksheet xmlns="%s" xmlns:r="%s"><sheetViews><sheetView workbookViewId="0"/></sheetViews><sheetFormatPr defaultRowHeight="15"/>%s<sheetData>%s</sheetData>%s%s%s</worksheet>'
               % (NS, RNS, cols, ''.join(rows_xml), ('<mergeCells count="%d">%s</mergeCells>' % (len(merges), ''.join('<mergeCell ref="%s"/>' % m for m in merges))) if merges else '',
                  ('<hyperlinks>%s</hyperlinks>' % ''.join(hl)) if hl else '', table_parts))
+        if apos:
+            # attribute values delimited by apostrophes (equally legal XML; some serialisers write it)
+            def requote(m_):
+                return m_.group(0) if "'" in m_.group(2) else "%s='%s'" % (m_.group(1), m_.group(2).replace('&apos;', "'").replace("'", '&apos;').replace('&quot;', '"'))
+            head, sep, tail = ws.partition('<sheetData>')
+            body, sep2, rest = tail.partition('</sheetData>')
+            body = re.sub(r'(?<=[ ])([A-Za-z:]+)="([^"<]*)"', requote, body)
+            ws = head + sep + body + sep2 + rest
         if pretty:
             # line breaks and indentation between the elements of sheetData (never inside <v>, <f>, <t> or <is>)
             ws = re.sub(r'>(?=<(?:c |/c>|row |/row>|f[ >]|v>|is>|/sheetData>))', lambda m_: '>\n' + ' ' * rng.choice([2, 4, 8]), ws)
